@@ -17,7 +17,7 @@ timeout 1200 /venv/bin/python -m pytest -q -p no:cacheprovider -x verif/tests > 
 tests=$(tail -1 /tmp/confirm_${pid}_${n}_tests.txt)
 if [ $rc_clean -eq 0 ] && [ $rc_mut -ne 0 ] && [ $rc_tests -eq 0 ]; then
   d=/verif/seeded/${pid}_$n; mkdir -p $d
-  cp $src/mut$n.diff $d/patch.diff; cp $src/demo$n.py $d/demo.py; cp $src/notes.md $d/notes.md 2>/dev/null; [ $n -ge 3 ] && cp $src/notes_r2.md $d/notes.md 2>/dev/null; [ $n -ge 5 ] && cp $src/notes_r4.md $d/notes.md 2>/dev/null; [ $n -ge 5 ] && [ -f $src/notes_r5.md ] && cp $src/notes_r5.md $d/notes.md; [ $n -ge 7 ] && [ -f $src/notes_r6.md ] && cp $src/notes_r6.md $d/notes.md; [ $n -ge 7 ] && [ -f $src/notes_r7.md ] && cp $src/notes_r7.md $d/notes.md; [ $n -ge 9 ] && [ -f $src/notes_r8.md ] && cp $src/notes_r8.md $d/notes.md
+  cp $src/mut$n.diff $d/patch.diff; cp $src/demo$n.py $d/demo.py; cp $src/notes.md $d/notes.md 2>/dev/null; [ $n -ge 3 ] && cp $src/notes_r2.md $d/notes.md 2>/dev/null; [ $n -ge 5 ] && cp $src/notes_r4.md $d/notes.md 2>/dev/null; [ $n -ge 5 ] && [ -f $src/notes_r5.md ] && cp $src/notes_r5.md $d/notes.md; [ $n -ge 7 ] && [ -f $src/notes_r6.md ] && cp $src/notes_r6.md $d/notes.md; [ $n -ge 7 ] && [ -f $src/notes_r7.md ] && cp $src/notes_r7.md $d/notes.md; [ $n -ge 9 ] && [ -f $src/notes_r8.md ] && cp $src/notes_r8.md $d/notes.md; [ $n -ge 9 ] && [ -f $src/notes_r9.md ] && cp $src/notes_r9.md $d/notes.md
   python3 - "$pid" "$n" "$d" "$tests" <<'PY'
 import json,sys
 pid,n,d,tests=sys.argv[1:5]
